@@ -74,7 +74,7 @@ def centre(draw):
 
 
 @st.composite
-def convex_face(draw, max_class=3, min_corners=3, max_corners=8):
+def convex_face(draw, max_class=3, min_corners=3, max_corners=8, tiny=False):
     """Returns {"lonlat": [[lon, lat], ...] (ccw), "centre": [lon, lat], "how": str, "shape": str}.
     Strictly convex by construction (corners on a small circle, or planar convex hull in the
     gnomonic chart, which maps great circles to straight lines)."""
@@ -84,6 +84,9 @@ def convex_face(draw, max_class=3, min_corners=3, max_corners=8):
     cls = draw(st.integers(0, max_class))
     rmax = [5.0, 15.0, 32.5, 44.0][cls]
     r = math.radians(draw(st.floats(rmax * 0.25, rmax)))
+    if tiny and draw(st.integers(0, 5)) == 0:
+        # high-resolution cells: a few metres to a kilometre across
+        r = math.radians(draw(st.sampled_from([1e-4, 3e-4, 1e-3, 1e-2])))
     k = draw(st.integers(min_corners, max_corners))
     shape = draw(st.sampled_from(["circle", "circle", "hull"]))
     vs = None
